@@ -78,6 +78,12 @@ class Conn(object):
     def sendall(self, b):
         self.sent += b
 
+    def send(self, b):
+        # socket.send may transmit fewer bytes than it is given and says how many: this peer takes two at a time
+        k = min(len(b), 2)
+        self.sent += b[:k]
+        return k
+
     def close(self):
         self.closed += 1
 
@@ -218,6 +224,8 @@ PAYLOADS = [
     (b'PID|1||X\r', 'ERR', 'InvalidHL7Message'),
     (b'hello world', 'ERR', 'InvalidHL7Message'),
     (b'MSH|^~\\&&|A|B|C|D|2020||ADT^A01|1|P|2.5\r', 'ERR', 'InvalidEncodingChars'),
+    (b'MSH|^~\\&#|A|B|C|D|2020||ADT^A01|1|P|2.7\r', 'A01', None),        # 2.7: five encoding characters, MSH-12 is the last field
+    (b'MSH|^~\\&#|A|B|C|D|2020||QBP^Q22^QBP_Q21|1|P|2.8.2|\rQPD|x\r', 'Q22', None),
 ]
 NP = len(PAYLOADS)
 
@@ -381,7 +389,7 @@ SPEC = {
                     'UnicodeDecodeError, with no handler invoked and nothing sent)'],
     'outside': ['N simultaneous clients / ThreadingTCPServer threads; kernel TCP segmentation timing beyond "recv returns 1..3 '
                 'bytes, then byte-wise reads"; frames longer than the bounds'],
-    'stubs': ['socket connection (recv/makefile/sendall/close/settimeout)', 'server object with .handlers/.timeout'],
+    'stubs': ['Conn.send transmits at most 2 bytes per call and returns the count (the documented contract of socket.send); sendall / wfile.write transmit everything', 'socket connection (recv/makefile/sendall/close/settimeout)', 'server object with .handlers/.timeout'],
     'obligations': [
         {'name': 'F.frame', 'fn': '_ob_frame', 'parts': 1, 'cond_timeout': 300, 'path_timeout': 60,
          'bound': 'to_mllp() == SB+to_er7()+CR+EB+CR for 4 message shapes x trailing_children'},
